@@ -31,7 +31,11 @@ ASSUMPTIONS = [
     "random.choice is uniform over the rows and random.uniform(0, m) is uniform on [0, m) (CPython); the harness "
     "controls their return values and checks their arguments",
     "cell_min/cell_max of the periodic cell system are inputs of the handler model (their construction is C16); "
-    "active-unit positions are generated inside cells and on lower cell boundaries",
+    "active-unit positions are generated inside cells and on lower cell boundaries; the theorems about `translate` "
+    "assume exact cell boundaries (cell_min = i*side, cell_max = (i+1)*side, L = n*side)",
+    "not covered: the mediator's lookup of the target cell's occupant and the system-level fact that a pending "
+    "cell-veto event's active cell is still current at commit time (DESIGN.md `vetoCellCurrent`, owned by the system "
+    "model); the time-slicing of the in-state inside send_event_time is C07's",
 ]
 TRUSTED = ["Lean native Float (+ - * / and comparisons are the hardware's IEEE-754 binary64 operations)",
            "JF.Num.Ops.ffmod / ftoInt (exact integer fmod / int()) used by the model of `translate`",
@@ -63,10 +67,11 @@ class Draws:
     def __init__(self):
         self.k = 0; self.x = None; self.u = None; self.e = 1.0
         self.log = []
+        self.sampled = []           # (walker, returned item) of every Walker.sample_cell call
 
     def choice(self, seq):
         self.log.append(("choice", len(seq)))
-        return seq[self.k]
+        return seq[self.k % len(seq)]
 
     def uniform(self, a, b):
         self.log.append(("uniform", a, b))
@@ -252,6 +257,8 @@ def walker_cases(ctx, wmod, draws, cases):
             continue
         mean = w._mean_rate
         nrows = len(w._table)
+        if nrows == 0:
+            continue
         ks = {0, nrows - 1} | {rng.randrange(nrows) for _ in range(4)}
         # rows that hold a zero-rate small item, rows with a single entry
         zr = [k for k, row in enumerate(w._table) if row[0].rate == 0.0][:3]
@@ -331,7 +338,7 @@ def walker_cases(ctx, wmod, draws, cases):
         # ---- sample
         _, _, k, x = p
         n_samples += 1
-        draws.k, draws.x, draws.log = k, x, []
+        draws.k, draws.x, draws.log, draws.sampled = k, x, [], []
         try:
             got = w.sample_cell()
             impl = f"ok {got}"
@@ -380,7 +387,7 @@ def walker_blackbox(ctx, wmod, draws):
         for k in range(len(w._table)):
             def f(u):
                 # the real `random.uniform(a, b)` arithmetic on the arguments the walker passes, driven by u in [0, 1)
-                draws.k, draws.x, draws.u, draws.log = k, None, u, []
+                draws.k, draws.x, draws.u, draws.log, draws.sampled = k, None, u, [], []
                 return w.sample_cell()
             try:
                 lo, hi = 2.0 ** -60, 1 - 2.0 ** -53
@@ -492,6 +499,11 @@ def handler_config(ctx, cfg, draws, seed, nsend):
                 script[key] = (ub, lb)
             return script[key]
 
+        def script_bound(c, d):
+            zc = cells.zero_cell
+            return derivative_bound([c.cell_min[e] - zc.cell_max[e] for e in range(dim)],
+                                    [c.cell_max[e] - zc.cell_min[e] for e in range(dim)], d, True)
+
         est = mock.MagicMock(spec_set=Estimator)
         est.derivative_bound.side_effect = derivative_bound
         cfactor = rng.choice([1.0, 0.5, 1.7])
@@ -508,7 +520,7 @@ def handler_config(ctx, cfg, draws, seed, nsend):
         with open(os.devnull, "w") as dn, contextlib.redirect_stdout(dn):
             try:
                 handler.initialize(cells, cell_level)
-            except (ZeroDivisionError, AssertionError) as e:
+            except (ZeroDivisionError, AssertionError, KeyError, IndexError) as e:
                 init_status = "err:" + type(e).__name__
         ctx.count("handler-config:" + name + ":" + init_status)
 
@@ -601,7 +613,12 @@ def handler_config(ctx, cfg, draws, seed, nsend):
         if impl != rl:
             ctx.disagree("handler.init", case0, impl[:300], rl[:300])
         if init_status != "ok":
-            # an empty domain or an all-zero walker: outside the property's quantifier (total > 0); correspondence only
+            # an empty domain or an all-zero walker is outside the property's quantifier (total > 0): correspondence only
+            vectors = [[max(b, 0.0) for b in col] for d in range(dim) for col in
+                       ([script_bound(c, d)[0] for c in dom_cells], [-script_bound(c, d)[1] for c in dom_cells])]
+            if dom_cells and all(in_quantifier(v) for v in vectors):
+                ctx.fail("CellVetoEventHandler.initialize:raises:" + init_status, case0,
+                         "initialize raised although every walker has non-negative bounds with a positive total")
             return
         # the walker domain is the set of non-nearby cells, keyed by themselves (relative_cell(cell, zero) == cell)
         if list(handler._derivative_bounds) != dom_cells:
@@ -678,7 +695,8 @@ def handler_config(ctx, cfg, draws, seed, nsend):
                 root = Node(unit)
                 active_unit = unit
             else:
-                half = [0.01 * (e == 0) for e in range(dim)]
+                # the active leaf usually sits in another cell than its composite object (the cell-level unit)
+                half = [rng.uniform(-1.4, 1.4) * L[e] / cells._cells_per_side[e] for e in range(dim)]
                 root_unit = Unit(identifier=ident, position=list(sd["pos"]), charge=None,
                                  velocity=[v / 2 for v in sd["vel"]], time_stamp=Time(sd["tq"], sd["tr"]))
                 root = Node(root_unit, weight=1.0)
@@ -693,9 +711,7 @@ def handler_config(ctx, cfg, draws, seed, nsend):
             scase = {**case0, "velocity": [v.hex() for v in sd["vel"]], "charge": sd["q"], "position": [p.hex() for p in sd["pos"]],
                      "row": sd["k"], "uniform_draw": float(sd["xx"]).hex(), "expovariate": float(sd["e"]).hex(),
                      "time_stamp": [sd["tq"].hex(), float(sd["tr"]).hex()]}
-            sampled = []
-            orig = walker.sample_cell
-            walker.sample_cell = lambda: (sampled.append(orig()), sampled[-1])[1]
+            draws.sampled = []
             try:
                 t, tc = handler.send_event_time([root])
                 impl = f"ok {f2b(t.quotient)} {f2b(t.remainder)} {index_of[tc[0]]} {f2b(handler._bounding_event_rate)}"
@@ -703,8 +719,6 @@ def handler_config(ctx, cfg, draws, seed, nsend):
             except (AssertionError, ZeroDivisionError, IndexError, KeyError) as ex:
                 impl = "err:" + type(ex).__name__
                 exc = ex
-            finally:
-                del walker.sample_cell
             ctx.evaluations += 1
             ctx.cls(("hsend", kind, sd["cf"] > 0, impl[:3], sd["x"] == 0.0, d, len(walker._table[sd["k"]])))
             ctx.sample({"request": req[0][:60] + " ... hsend", "impl": impl, "model": rl})
@@ -714,13 +728,19 @@ def handler_config(ctx, cfg, draws, seed, nsend):
             if draws.log[:2] != want_log or (exc is None and draws.log[2:] != [("expovariate", beta)]):
                 ctx.disagree("handler.send (draw requests)", scase, repr(draws.log), repr(want_log + [("expovariate", beta)]))
             # ---- oracle
-            rel = sampled[0] if sampled else None
+            rel = draws.sampled[0][1] if draws.sampled else None
             idx = 0 if sd["cf"] > 0 else 1
+            if (draws.sampled and (len(draws.sampled) != 1 or draws.sampled[0][0] is not walker)) or \
+                    (exc is None and not draws.sampled):
+                ctx.fail("CellVetoEventHandler.send_event_time:does-not-sample-once-from-the-walker-of-direction-and-sign",
+                         scase, f"{len(draws.sampled)} sample_cell calls; expected one on the "
+                                f"{'upper' if sd['cf'] > 0 else 'lower'}-bound walker of direction {d}")
+                continue
             if exc is not None:
                 zero_bound = rel is not None and max(handler._derivative_bounds[rel][d][idx], 0.0) == 0.0
                 if sd["xx"] == 0.0 and zero_bound and isinstance(exc, AssertionError):
                     fail_known(ctx, SIG_F4H, scase, "uniform draw 0.0 samples an offset whose bound is <= 0; `assert self._bounding_event_rate > 0.0` trips")
-                elif sd["cf"] != 0.0:
+                elif sd["cf"] != 0.0 and sd["xx"] < walker._mean_rate:      # uniform(0, mean) never returns mean itself
                     ctx.fail("CellVetoEventHandler.send_event_time:raises:" + type(exc).__name__, scase, f"raised {exc!r}")
                 continue
             acell = sd["acell"]
@@ -748,6 +768,32 @@ def handler_config(ctx, cfg, draws, seed, nsend):
         setting.reset()
 
 
+def replay(ctx, case):
+    """re-run a recorded walker-level case ({"rates": [hex...], optional "row", "uniform_draw"}) on implementation and model"""
+    import jellyfysh.event_handler.walker as wmod
+    c = case.get("case", case)
+    if "rates" not in c:
+        return {"note": "handler-level case: re-run `./check C18` with the recorded seed; the case names config, estimator seed and draws"}
+    rates = [float.fromhex(h) for h in c["rates"]]
+    draws = Draws()
+    saved, wmod.random = wmod.random, draws
+    try:
+        status, w, _ = impl_build(wmod, rates)
+        out = {"rates": rates, "impl_build": impl_table_line(w) if status == "ok" else status}
+        req = ["build " + " ".join(f2b(r) for r in rates)]
+        if status == "ok" and "row" in c and "uniform_draw" in c:
+            draws.k, draws.x = c["row"], float.fromhex(c["uniform_draw"])
+            try:
+                out["impl_sample"] = w.sample_cell()
+            except Exception as e:  # noqa
+                out["impl_sample"] = "err:" + type(e).__name__
+            req.append(f"sample {c['row']} {f2b(draws.x)}")
+        out["model"] = ctx.model("walker", req)
+        return out
+    finally:
+        wmod.random = saved
+
+
 def run(ctx):
     import jellyfysh.event_handler.walker as wmod
     import jellyfysh.event_handler.abstracts.cell_veto_event_handler as cvmod
@@ -755,6 +801,13 @@ def run(ctx):
     saved = (wmod.random, cvmod.random)
     wmod.random = draws
     cvmod.random = draws
+    orig_sample = wmod.Walker.sample_cell
+
+    def recording_sample_cell(self):
+        r = orig_sample(self)
+        draws.sampled.append((self, r))
+        return r
+    wmod.Walker.sample_cell = recording_sample_cell
     ctx.rule = ("walker: seeded generator over (size class 1..3000, pattern: uniform/equal/zeros/dominant/geometric over up to "
                 "60 decades/integers/items exactly at the mean/two-level/subnormal/near-equal/bound-like) plus a fixed corpus "
                 "of boundary vectors; draws: every boundary of the chosen rows (0.0, the small item's rate and its "
@@ -774,3 +827,4 @@ def run(ctx):
                 handler_config(ctx, cfg, draws, seed, nsend)
     finally:
         wmod.random, cvmod.random = saved
+        wmod.Walker.sample_cell = orig_sample
